@@ -30,6 +30,8 @@ WITNESS_ADAPTER_ERR = [[ADACCEPT, 1, 0], [ADACCEPT, 2, 1], [HANDSHAKE, 1, 0, 7, 
 WITNESS_ADAPTER_CLOSED = [[ADACCEPT, 1, 0], [ADACCEPT, 2, 1], [HANDSHAKE, 1, 0, 7, 1], [HANDSHAKE, 2, 0, 8, 1], [ADEND, 1, 2], [HEARTBEAT, 2], [ADEND, 2, 2]]
 # registry-level kick with and without a kick callback: the kicked connection's transport must be closed either way
 WITNESS_KICK_NIL_CALLBACK = [[ACCEPT, 1], [ACCEPT, 2], [HANDSHAKE, 1, 0, 7, 1], [HANDSHAKE, 2, 0, 8, 1], [KICK, 7, 9, 1], [KICK, 8, 9, 0], [CLOSE, 1]]
+# first-time registrations: the request carries client_id 0 and the auth handler allocates the ids; the second must not evict the first
+WITNESS_ANON_REGISTRATION = [[ACCEPT, 1], [ACCEPT, 2], [HANDSHAKE, 1, 0, 7, 2], [HANDSHAKE, 2, 0, 8, 2], [HEARTBEAT, 1], [CLOSE, 2], [CLOSE, 1]]
 WITNESS_CLAIM = [[ACCEPT, 1], [ACCEPT, 2], [HANDSHAKE, 1, 0, 7, 1], [REGCLAIM, 2, 7], [CLOSE, 2]]
 EX_ALPHABET_AD = [[ADACCEPT, 1, 1], [ADACCEPT, 2, 0], [HANDSHAKE, 1, 0, 1, 1], [HANDSHAKE, 2, 0, 1, 1], [HANDSHAKE, 2, 0, 2, 1], [ADEND, 1, 0],
                   [ADEND, 2, 2], [CLOSE, 1], [REMOVE, 2], [REGCLAIM, 1, 2], [REGCLAIM, 2, 1], [HEARTBEAT, 1], [SWEEP], [TICK, 3], [KICK, 1, 2]]
@@ -52,7 +54,7 @@ WITNESS_LATE_REGISTER = [[[ACCEPT, 1], with_inj([HANDSHAKE, 1, 0, 7, 1], 9, [CLO
 WITNESS_SIBLING_SWEEP = [[ACCEPT, 1], [ACCEPT, 2], [ACCEPT, 3], [HANDSHAKE, 1, 0, 7, 1], [HANDSHAKE, 2, 0, 7, 0], [TICK, 3], [HEARTBEAT, 1], [SWEEP],
                          [HANDSHAKE, 3, 0, 7, 1]]
 WITNESS_SIBLING_SWEEP2 = [[ACCEPT, 1], [ACCEPT, 2], [HANDSHAKE, 2, 0, 7, 0], [HANDSHAKE, 1, 0, 7, 1], [TICK, 2], [HEARTBEAT, 1], [TICK, 1], [SWEEP], [HEARTBEAT, 1]]
-EX_ALPHABET_SIB = [[HANDSHAKE, 1, 0, 1, 1], [HANDSHAKE, 2, 0, 1, 0], [HANDSHAKE, 3, 0, 1, 1], [REREG, 2, 1], [TICK, 3], [HEARTBEAT, 1], [HEARTBEAT, 2],
+EX_ALPHABET_SIB = [[HANDSHAKE, 1, 0, 1, 2], [HANDSHAKE, 2, 0, 1, 0], [HANDSHAKE, 3, 0, 1, 2], [REREG, 2, 1], [TICK, 3], [HEARTBEAT, 1], [HEARTBEAT, 2],
                    [SWEEP], [CLOSE, 1], [REMOVE, 2]]
 # adapter-driven accepts that are refused: connection limit reached, connection id already in use
 CFG_MAXCONN1 = {"maxConn": 1, "maxCtl": 0, "tmo": 2}
@@ -160,7 +162,8 @@ def rand_op(rng, conns, clients):
         return [ACCEPT, c]
     if r < 0.43:
         k = rng.choice([0, 0, 0, 0, 0, 0, 0, 1, 1, 2])
-        return [HANDSHAKE, c, k, x, 0 if rng.random() < 0.15 else 1]
+        # connection type: 0 tunnel, 1 control, 2 control with client_id 0 in the request (anonymous registration: the auth handler allocates x)
+        return [HANDSHAKE, c, k, x, 0 if rng.random() < 0.15 else rng.choice([1, 1, 2])]
     if r < 0.50:
         return [HEARTBEAT, c]
     if r < 0.58:
@@ -395,6 +398,7 @@ def run(ctx, only_cases=None):
                {"cfg": CFG0, "ops": WITNESS_PERSISTENT, "stream": "witness"}, {"cfg": CFG_CLOUD_FAIL, "ops": WITNESS_ADAPTER_ERR, "stream": "witness"},
                {"cfg": CFG0, "ops": WITNESS_ADAPTER_CLOSED, "stream": "witness"},
                {"cfg": CFG0, "ops": WITNESS_KICK_NIL_CALLBACK, "stream": "witness"},
+               {"cfg": CFG0, "ops": WITNESS_ANON_REGISTRATION, "stream": "witness"},
                {"cfg": CFG0, "ops": WITNESS_CLAIM, "stream": "witness"}]
     probes += [{"cfg": CFG0, "ops": w, "stream": "witness"} for w in WITNESS_LATE_REGISTER]
     probes += [{"cfg": CFG0, "ops": w, "stream": "witness"} for w in WITNESS_OVERLAP + [WITNESS_SIBLING_SWEEP, WITNESS_SIBLING_SWEEP2, WITNESS_REFUSED_DUP]]
